@@ -9,7 +9,9 @@
 (*       built from the reversed order), can / cans / caninv (first two    *)
 (*       vertices of the canonical sequence as indices into the original   *)
 (*       order: base loop, rotations, inverted loop); areas (Area of the   *)
-(*       rotations), alo, ahi (Area of the base loop -/+ documented error) *)
+(*       rotations), alo, ahi (Area of the base loop -/+ documented error); *)
+(*       cens (Centroid of the rotations), cinv (negated Centroid of the    *)
+(*       inverted loop), celo, cehi; gblo, gbhi (2*pi - Area -/+ error)     *)
 (* area  area, lo, hi (expected -/+ documented error), norm, ta, small     *)
 (*       (model: "yes" below a hemisphere, "no" complement, "na"), w2/tri  *)
 (*       (certificate inputs), gblo, gbhi (2*pi - area -/+ documented     *)
@@ -51,6 +53,9 @@ TurnRej(e) ==
     \cup If(\E k \in 1..Len(e.cans) : e.cans[k] # e.can, "canonical-vertex-rotation")
     \cup If(e.caninv # e.can, "canonical-vertex-invert")
     \cup If(\E k \in 1..Len(e.areas) : ~Within(e.areas[k], e.alo, e.ahi), "area-rotation")
+    \cup If(\E k \in 1..Len(e.cens) : \E c \in 1..3 : ~Within(e.cens[k][c], e.celo[c], e.cehi[c]), "centroid-rotation")
+    \cup If(\E c \in 1..3 : ~Within(e.cinv[c], e.celo[c], e.cehi[c]), "centroid-invert")
+    \cup If(~Within(e.ta, e.gblo, e.gbhi), "turning-angle-vs-area")
 
 \* model certificate: "yes" = the region is smaller than a hemisphere, "no" = its complement is
 Small(e) ==
